@@ -156,7 +156,8 @@ type FaultPlan struct {
 	// At is the 1-based index of the backend call to fail; 0 disables.
 	At int
 	// Kind is "generic", "notfound" (ErrUserNotFound/ErrTokenNotFound where the
-	// method can return them, generic otherwise) or "found" (ErrUserFound on Create).
+	// method can return them, generic otherwise), "found" (ErrUserFound on Create) or
+	// "cancel": no call fails, the request's context is cancelled when the At-th call is made.
 	Kind string
 	// Name, if set, fails the first backend call of that name instead of the At-th call.
 	Name string
@@ -169,7 +170,10 @@ type Backend struct {
 	Calls []string // names of the backend calls of the current request
 	Plan  FaultPlan
 	Fired string // name of the call that was failed ("" if none)
-	Yield func() // optional schedule perturbation (C20)
+	// Cancel cancels the context of the request in flight; Cancelled says a "cancel" plan did so
+	Cancel    func()
+	Cancelled bool
+	Yield     func() // optional schedule perturbation (C20)
 }
 
 // Reset starts a new request.
@@ -178,6 +182,7 @@ func (b *Backend) Reset(p FaultPlan) {
 	b.Calls = b.Calls[:0]
 	b.Plan = p
 	b.Fired = ""
+	b.Cancelled = false
 	b.mu.Unlock()
 }
 
@@ -194,6 +199,13 @@ func (b *Backend) Enter(name string, notFound error) error {
 			return nil
 		}
 	} else if b.Plan.At == 0 || len(b.Calls) != b.Plan.At {
+		return nil
+	}
+	if b.Plan.Kind == "cancel" {
+		if b.Cancel != nil {
+			b.Cancel()
+		}
+		b.Cancelled = true
 		return nil
 	}
 	b.Fired = name
